@@ -1200,9 +1200,27 @@ func (s *sharedEntryAttributes) ImportConfig(ctx context.Context, t importer.Imp
 	return nil
 }
 
+// remainsExplicitly reports whether the entry holds, after the transaction, a value other than schema defaults:
+// a container or list entry of which only defaults are left is itself on its way out.
+func (s *sharedEntryAttributes) remainsExplicitly() bool {
+	if s.leafVariants.remainsExplicitly() {
+		return true
+	}
+	for _, c := range s.filterActiveChoiceCaseChilds() {
+		if c.remainsExplicitly() {
+			return true
+		}
+	}
+	return false
+}
+
 // validateMandatory validates that all the mandatory attributes,
 // defined by the schema are present either in the tree or in the index.
 func (s *sharedEntryAttributes) validateMandatory(ctx context.Context, resultChan chan<- *types.ValidationResultEntry) {
+	// what is given up as a whole has no mandatory childs to miss
+	if !s.remainsExplicitly() {
+		return
+	}
 	if s.schema != nil {
 		switch s.schema.GetSchema().(type) {
 		case *sdcpb.SchemaElem_Container:
@@ -1215,6 +1233,10 @@ func (s *sharedEntryAttributes) validateMandatory(ctx context.Context, resultCha
 
 func (s *sharedEntryAttributes) validateMandatoryWithKeys(ctx context.Context, level int, attribute string, resultChan chan<- *types.ValidationResultEntry) {
 	if level == 0 {
+		// a list entry that is given up as a whole has no mandatory childs to miss
+		if !s.remainsExplicitly() {
+			return
+		}
 		// first check if the mandatory value is set via the intent, e.g. part of the tree already
 		v, existsInTree := s.filterActiveChoiceCaseChilds()[attribute]
 
